@@ -191,3 +191,35 @@ Example drain_example :
   p_stages p1 = [[[2%N]]; [[1%N]]] /\
   p_done (fold_left pipe_step [MPop; MShift 0; MPop; MPush; MShift 0; MPop] p1) = [[1%N]; [2%N]; [3%N]].
 Proof. vm_compute. split; reflexivity. Qed.
+
+(* ---- the outbound byte stream ---- *)
+
+(* nothing fails: the stream is the hand-offs, whole, in hand-off order *)
+Theorem writer_complete msgs : writer msgs None = concat msgs.
+Proof. induction msgs as [|m r IH]; cbn [writer concat]; [reflexivity|]. rewrite IH. reflexivity. Qed.
+
+(* a write fails part-way: every earlier hand-off is on the wire whole and in order, then the bytes the
+   transport took of the failing one, then nothing *)
+Theorem writer_failed : forall msgs k keep,
+  k < length msgs ->
+  writer msgs (Some (k, keep)) = concat (firstn k msgs) ++ firstn keep (nth k msgs []).
+Proof.
+  induction msgs as [|m r IH]; intros k keep Hk; cbn [length] in Hk; [lia|].
+  destruct k as [|k]; cbn [writer firstn concat nth app]; [reflexivity|].
+  rewrite IH by lia. rewrite app_assoc. reflexivity.
+Qed.
+
+(* in every case the outbound stream is a prefix of the hand-offs in order: no hand-off is interleaved
+   with another, repeated, or written behind a torn one *)
+Theorem writer_prefix : forall msgs f, exists rest, concat msgs = writer msgs f ++ rest.
+Proof.
+  induction msgs as [|m r IH]; intro f; cbn [writer concat]; [exists []; reflexivity|].
+  destruct f as [[[|k] keep]|].
+  - exists (skipn keep m ++ concat r). rewrite app_assoc, firstn_skipn. reflexivity.
+  - destruct (IH (Some (k, keep))) as [rest E]. exists rest. rewrite E, app_assoc. reflexivity.
+  - destruct (IH None) as [rest E]. exists rest. rewrite E, app_assoc. reflexivity.
+Qed.
+
+Example writer_example :
+  writer [[1%N; 2%N]; [3%N; 4%N; 5%N]; [6%N]] (Some (1, 2)) = [1%N; 2%N; 3%N; 4%N].
+Proof. reflexivity. Qed.
